@@ -1,6 +1,6 @@
 (* C13 -- region measurements and label-map utilities equal their per-label definitions. *)
 Require Import MV.Base.Prelude MV.Base.CInt MV.Base.Index MV.Base.BorderSpec MV.Base.Renumber.
-Require Import MV.Gen.Scalar_gen MV.Model.Filter MV.Model.Labeled MV.Proof.ConvProof MV.Proof.LabeledProof.
+Require Import MV.Gen.Scalar_gen MV.Model.Filter MV.Model.Labeled MV.Proof.ConvProof MV.Proof.LabeledProof MV.Proof.SameLabelingProof MV.Proof.BboxProof MV.Proof.BboxFastProof.
 
 (* labeled_foldl: result[k] is the fold of the operation over exactly the pixels carrying label k (scan order),
    for ANY operation and identity element -- nothing from other labels leaks in *)
@@ -53,3 +53,23 @@ Proof. exact remove_regions_spec. Qed.
 Theorem C13_borders_pixel : forall m f bc p, valid_mode m -> shape_ok (shape f) ->
   borders_at m f bc p = borders_spec m f bc p.
 Proof. exact borders_at_spec. Qed.
+
+(* is_same_labeling (the two insert-if-absent maps of _labeled.cpp) decides, for all pairs of label maps, whether the pixelwise
+   pairs form a bijection between the label sets that pairs 0 with 0 -- and the executable specification the check uses says
+   the same *)
+Theorem C13_is_same_labeling_decides_label_bijection : forall a b,
+  (is_same_labeling a b = true <->
+   PB (combine a b) /\ forall p, In p (combine a b) -> (fst p = 0 <-> snd p = 0)) /\
+  is_same_labeling a b = same_labeling_spec a b.
+Proof. exact (fun a b => conj (is_same_labeling_correct a b) (is_same_labeling_eq_spec a b)). Qed.
+
+(* bbox (the generic N-D scan of _bbox.cpp with its extrema[1]==0 emptiness test) returns the tight bounding box of the
+   non-zero positions -- per axis the least coordinate and one more than the greatest -- and all zeros for an empty image:
+   every array of every dimension *)
+Theorem C13_bbox_is_the_tight_box : forall f, pos_shape (shape f) -> bbox_generic f = bbox_spec f.
+Proof. exact bbox_generic_is_spec. Qed.
+
+(* ... and so does the C-contiguous 2-D fast path (after a hit, skip ahead to the current right bound): every 2-D array *)
+Theorem C13_bbox_fast_path_is_the_tight_box : forall f N0 N1, shape f = [N0; N1] -> 0 < N0 -> 0 < N1 ->
+  bbox_fast2 f = bbox_generic f /\ bbox_fast2 f = bbox_spec f.
+Proof. exact (fun f N0 N1 E H0 H1 => conj (bbox_fast2_is_generic f N0 N1 E H0 H1) (bbox_fast2_is_spec f N0 N1 E H0 H1)). Qed.
